@@ -83,6 +83,12 @@ def make_notebooks():
     out["local_only"] = (cb, concretize.concrete(edit(2, src=1, outs=6)), concretize.concrete(base))
     # both sides edit the same two far-apart lines of one cell differently: two conflict regions in one source
     out["two_regions"] = (cb, concretize.concrete(edit(0, src=5)), concretize.concrete(edit(0, src=6)))
+    # exactly 256 unresolved conflicts (a process exit status has 8 bits)
+    def many(tag):
+        return nbformat.from_dict({"nbformat": 4, "nbformat_minor": 5, "metadata": {}, "cells": [
+            {"cell_type": "code", "id": "c%d" % i, "metadata": {}, "execution_count": None, "outputs": [],
+             "source": "value_%d = %s\n" % (i, tag)} for i in range(256)]})
+    out["conflicts256"] = (many("0"), many("'local'"), many("'remote'"))
     return out
 
 
@@ -283,7 +289,8 @@ def run():
                 continue
             for triple, strategy in (("conflict", None), ("clean", None), ("conflict", "use-local"),
                                      ("conflict", "use-remote"), ("clean", "use-base"), ("numkind", None),
-                                     ("same", None), ("remote_only", None), ("local_only", None), ("two_regions", None)):
+                                     ("same", None), ("remote_only", None), ("local_only", None), ("two_regions", None),
+                                     ("conflicts256", None)):
                 if s == "both_null" and (triple, strategy) != ("clean", None):
                     continue
                 base_cases.append((m, s, triple, strategy))
@@ -295,13 +302,17 @@ def run():
         points = sorted(steps_for.get((m, s), ()))
         for j, (st, k) in enumerate(points):
             ks = kinds if not chk.quick else (kinds[(n + j) % 4], "Kill" if (n + j) % 3 == 0 else kinds[(n + j + 1) % 4])
-            if triple in ("same", "remote_only", "local_only", "two_regions"):
+            if triple in ("same", "remote_only", "local_only", "two_regions", "conflicts256"):
                 ks = ()                      # fault-free runs only
             elif chk.quick and (strategy is not None or triple == "numkind"):
                 ks = (kinds[(n + j) % 4],) if (n + j) % 4 == 0 else ()
             for kd in sorted(set(ks)):
                 scenarios.append(Scenario("s%d" % n, m, s, triple, strategy, {"step": st, "kind": kd, "k": k}))
                 n += 1
+        # the same I/O fault delivered by the operating system (file size limit reached while the result is written)
+        if m in ("out", "driver") and strategy is None and triple in ("conflict", "clean") and ("Write", 1) in points:
+            scenarios.append(Scenario("s%d" % n, m, s, triple, strategy, {"step": "Write", "kind": "IOError", "k": 1, "os": True}))
+            n += 1
 
     refs = {}
 
